@@ -311,16 +311,23 @@ func nested(depth int, kinds string, leaf string, closeAll bool) []byte {
 }
 
 // corpus returns (a sample of) the repository's own test inputs.
+func repoRoot() string {
+	if r := os.Getenv("VERIF_REPO"); r != "" {
+		return r
+	}
+	return "/repo"
+}
+
 func corpus(r *rand.Rand, max int) [][]byte {
 	var out [][]byte
-	files, _ := filepath.Glob("/repo/testdata/jsontestsuite/*.json")
+	files, _ := filepath.Glob(repoRoot() + "/testdata/jsontestsuite/*.json")
 	sort.Strings(files)
 	for _, f := range files {
 		if b, err := ioutil.ReadFile(f); err == nil && len(b) < 4096 {
 			out = append(out, b)
 		}
 	}
-	fz, _ := filepath.Glob("/repo/testdata/fuzz/corpus/*")
+	fz, _ := filepath.Glob(repoRoot() + "/testdata/fuzz/corpus/*")
 	sort.Strings(fz)
 	r.Shuffle(len(fz), func(i, j int) { fz[i], fz[j] = fz[j], fz[i] })
 	for _, f := range fz {
